@@ -177,6 +177,12 @@ def observe(mage, case):
                 ob["single_runs"].append({"route": "compiled", "words": [n] + ws, "want": [did, [list(x) for x in expect]], "rc": rr["rc"],
                                           "calls": [[c0, [list(x) for x in a]] for c0, a in calls(rr["out"])], "out": rr["out"][:200], "err": rr["err"][-200:]})
         ob["compiled"] = comp
+    # every alias declared for a target, typed as the first word, runs THAT target
+    ob["alias_runs"] = []
+    for a, ws, expect, did in case["alias_runs"]:
+        rr = mage.run(d, [a] + ws, env=HASHFAST)
+        ob["alias_runs"].append({"alias": a, "words": [a] + ws, "want": [did, [list(x) for x in expect]], "rc": rr["rc"],
+                                 "calls": [[c0, [list(x) for x in a2]] for c0, a2 in calls(rr["out"])], "err": rr["err"][-200:]})
     if case["fail_run"]:
         key, ws, did = case["fail_run"]
         n = bylow.get(G.go_lower(key))
@@ -207,7 +213,7 @@ def judge(ctx, case, ob):
 
     if not ob["alone_ok"]:
         return None          # outside the property (and a defect of the generator, counted by the caller)
-    valid = [f for f in pkg["funcs"] if G.oracle_valid(pkg, f)]
+    valid = [f for f in G.oracle_funcs(pkg) if G.oracle_valid(pkg, f)]
     if ob["list_rc"] != 0 or ob["listing"] is None:
         crashed = "panic:" in ob["list_err"]
         v("mage-crashes" if crashed else "generated-program-does-not-compile",
@@ -255,6 +261,9 @@ def judge(ctx, case, ob):
         if sr["rc"] != 0 or sr["calls"] != [sr["want"]]:
             v("runnable-as-first-word", route=sr["route"], words=sr["words"], rc=sr["rc"], expected_call=sr["want"], calls=sr["calls"],
               stdout=sr["out"], stderr=sr["err"])
+    for ar in ob.get("alias_runs", []):
+        if ar["rc"] != 0 or ar["calls"] != [ar["want"]]:
+            v("alias-runs-its-target", alias=ar["alias"], words=ar["words"], rc=ar["rc"], expected_call=ar["want"], calls=ar["calls"], stderr=ar["err"])
     comp = ob["compiled"]
     if comp is not None:
         if comp["rc"] != 0 or comp["listing"] is None:
@@ -320,7 +329,7 @@ def coq_case(case, ob, dv):
 
 def plan_runs(rng, pkg):
     runs = []
-    for f in pkg["funcs"]:
+    for f in G.oracle_funcs(pkg):
         # (undecided declarations are run too when mage lists them: whatever is listed must be runnable)
         if G.oracle_valid(pkg, f) or G.oracle_would_be_valid(pkg, f):
             ws, expect = G.words_for(rng, f)
@@ -384,6 +393,8 @@ def run(ctx):
                           and n not in G.PREDECLARED and n not in G.GO_KEYWORDS and n not in ("main", "init")))
         for i in range(0, len(lows), 45):
             cases.append({"stream": "names", "pkg": G.gen_named(rng, ["Build", "Test"], [], helper_names=lows[i:i + 45])})
+        for _ in range(5 * k):
+            cases.append({"stream": "mage-import", "pkg": G.gen_with_imports(rng)})
         for v in ["first", "last", "all"] * k:
             cases.append({"stream": "symlink:" + v, "pkg": G.gen_package(rng, nfiles=rng.choice([2, 3]), unicode=False, cli=False)})
         for c in cases[:6]:
@@ -421,10 +432,16 @@ def run(ctx):
             make_symlinks(c)
         c["files"] = sorted(f for f in os.listdir(c["src"]) if f.startswith("mf_"))
         c["runs"] = plan_runs(rng, pkg)
+        c["alias_runs"] = []
+        for f in G.oracle_funcs(pkg):
+            if G.oracle_valid(pkg, f):
+                for a in G.oracle_aliases(pkg, f):
+                    ws, expect = G.words_for(rng, f)
+                    c["alias_runs"].append((a, ws, expect, G.def_id(f)))
         c["docview"] = docview
         # the ASCII model (lower, is_upper, equal_fold of Model/Classify.v) is Go's behaviour only on "safe" spellings
         c["in_fragment"] = all(G.model_safe(n) for n in G.package_identifiers(pkg))
-        errs = [r for r, f in [(r, next(f for f in pkg["funcs"] if G.def_id(f) == r[3])) for r in c["runs"]]
+        errs = [r for r, f in [(r, next(f for f in G.oracle_funcs(pkg) if G.def_id(f) == r[3])) for r in c["runs"]]
                 if len(f["res"]) == 1 and f["res"][0]["kind"] == "error"]
         c["fail_run"] = (errs[0][0], errs[0][1], errs[0][3]) if errs else None
         d = G.oracle_default(pkg)
@@ -464,6 +481,7 @@ def run(ctx):
         stats["help_texts"] += len(ob["helps"])
         stats["target_runs"] += len(ob["run"]["plan"]) if ob["run"] else 0
         stats["default_runs"] += 1 if ob["default_run"] else 0
+        stats["alias_runs"] = stats.get("alias_runs", 0) + len(ob.get("alias_runs", []))
         stats["first_word_runs"] = stats.get("first_word_runs", 0) + len(ob["single_runs"])
         stats["compiled_binaries"] = stats.get("compiled_binaries", 0) + (1 if ob["compiled"] else 0)
         stats["failing_runs"] = stats.get("failing_runs", 0) + (1 if ob["fail_run"] else 0)
@@ -483,7 +501,7 @@ def run(ctx):
                 nontriv += 1
         uni = "ascii" if all(G.is_ascii(n) for n in G.package_identifiers(pkg)) else ("unicode-in-model-fragment" if c["in_fragment"] else "unicode-oracle-only")
         stats.setdefault("spelling", {})[uni] = stats.setdefault("spelling", {}).get(uni, 0) + 1
-        if c["stream"] not in CLASSES and c["in_fragment"]:
+        if c["stream"] not in CLASSES and c["in_fragment"] and not pkg.get("imports"):     # (the model has no mage:import)
             items.append(coq_case(c, ob, dv))
             item_case.append((c, ob))
     if noncompiling > max(1, len(cases) // 10):
